@@ -275,7 +275,10 @@ impl Check for C13 {
         let p: Plan = serde_json::from_value(plan.clone()).expect("bad C13 plan");
         let made = match kinds::make(&p.file) {
             Ok(m) => m,
-            Err(e) => panic!("harness: cannot make {:?}: {e}", p.file),
+            Err(_) => {
+                ctx.stats.probe("workload_unbuildable", 1);
+                return Vec::new();
+            }
         };
         let len = made.bytes.len();
         // a file too large to cut everywhere falls back to boundary cuts
